@@ -92,6 +92,8 @@ class Runner:
         out["params"][n] = {"axes": [{k: np.asarray(getattr(a, k)) for k in
                                       ("eigvecs", "eigvals", "inv_eigvals", "tail", "inv_tail")}
                                      for a in node.axes],
+                            "ggt": [np.asarray(a.ema_ggt).tobytes() if hasattr(a.ema_ggt, "shape") else None
+                                    for a in node.axes],
                             "svd": [b"".join(np.asarray(getattr(a, k)).tobytes()
                                              for k in ("svd_result_u", "svd_result_s", "inv_prev_tail")
                                              if hasattr(getattr(a, k), "shape"))
